@@ -109,8 +109,10 @@ impl Run {
                 json!(-1)
             }
             "pop" => {
+                let popped = self.jb.pop();
+                // judged AFTER the call: if the delay has not elapsed now, it had not when the buffer looked at the clock
                 self.check_time();
-                match self.jb.pop() {
+                match popped {
                     Some(s) => {
                         let q = seq_of(&s);
                         let was_next = self.last == -1 || q == (self.last + 1).rem_euclid(65536);
@@ -194,12 +196,12 @@ fn main() {
                 r.apply(op);
             }
             let v = r.apply(&e["act"]);
-            r.check_time();
             let wait = match r.jb.next_pop_wait() {
                 None => "none",
                 Some(d) if d.is_zero() => "zero",
                 Some(_) => "positive",
             };
+            r.check_time();
             let mut o = json!({"seq": v, "empty": r.jb.is_empty(), "awaiting": r.jb.awaiting_next(),
                    "ssrc": r.jb.last_ssrc().map(|s| s / 0x1000).unwrap_or(0), "wait": wait});
             // hidden content: let everything wait M, then drain (always when no sleep is needed, else 1 edge in 8)
